@@ -15,7 +15,7 @@ use serde_json::{json, Value};
 const STREAM: u64 = 16;
 
 pub fn run(ctx: &Ctx) -> Report {
-    let n = ctx.cases(16_000, 800_000);
+    let n = ctx.cases(60_000, 4_000_000);
     let mut inconclusive = vec![];
     let local = if ctx.shard.is_some() || ctx.only_case.is_some() {
         let mut c = ctx.clone();
